@@ -284,6 +284,16 @@ class Ref:
     def _e_enum(self, t, v, ctx):
         return v.value
 
+    # SerializableType: the user's methods ARE the specification; with use_annotations the annotated wire type is
+    # converted by the library on the way out and on the way in
+    _STYPE_WIRE = ("tuple", "Tuple", (("date",), ("int",)))
+
+    def _e_stype(self, t, v, ctx):
+        raw = v._serialize()
+        if self.fam.defs[t[1]]["flavour"] == "plain":
+            return raw
+        return self.enc(self._STYPE_WIRE, raw, dataclasses.replace(ctx, nt_engine_field=None))
+
     def _e_seq(self, t, v, ctx):
         items = [self.enc(t[2], x, ctx) for x in v]
         if tast.SEQ_SPELLINGS[t[1]][1] in ("set", "frozenset"):
@@ -823,6 +833,12 @@ class Ref:
             return None if d is None else self.dec(df["bound"], d, ctx)
         return d
 
+    def _d_stype(self, t, d, ctx):
+        cls = self.fam.get(t[1])
+        if self.fam.defs[t[1]]["flavour"] != "plain":
+            d = self.dec(self._STYPE_WIRE, d, dataclasses.replace(ctx, nt_engine_field=None))
+        return self._call(cls._deserialize, d)
+
     def _d_newtype(self, t, d, ctx):
         return self.dec(t[2], d, ctx)
 
@@ -972,6 +988,9 @@ class Ref:
         return type(v) is re.Pattern
 
     def _c_enum(self, t, v):
+        return type(v) is self.fam.get(t[1])
+
+    def _c_stype(self, t, v):
         return type(v) is self.fam.get(t[1])
 
     _SEQ_CLS = {"list": list, "deque": collections.deque, "set": set, "frozenset": frozenset}
